@@ -286,6 +286,14 @@ def _programs_of_subset(sname, group, sub, extra):
             if nb == 2 and len(sub) == 2:
                 # separately defined but value-equal priors stay separate
                 add(_prog(sname, sub, part, eq=[0] * nb))
+                # ... also when each of them sits inside an (equal)
+                # expression of its own
+                # (not 50 - P: with the shared numbers of an equality group
+                # it makes a radius negative -- the harness' own doing)
+                for w in WRAPS[1:]:
+                    if w != "rsub":
+                        add(_prog(sname, sub, part, eq=[0] * nb,
+                                  wraps=[w, w]))
         elif group == "name":
             for nm in itertools.product(NAMINGS_SHORT if extra else NAMINGS,
                                         repeat=nb):
